@@ -300,6 +300,17 @@ def t_termination(ctx, cfgs):
         "leptos_i18n_parser::parse_locales::parsed_value::ParsedValue::find_valid_component":
             "skip_sum grows by at least 2 bytes per non-exiting iteration and the search returns None when no `<..>` is left (delta proved positive by the symbolic offset analysis, C09.P2)",
     }
+    # the chain walk of the foreign-key resolver: decided, not recorded - C06.R0 interprets the resolution step on every shape of
+    # `inherits` table (chain, cycle, self reference, absent links) with a 64-iteration fuel and reports a walk that does not end
+    try:
+        from rules import c06
+        k0, ok0, _why = c06.r0_substitution(ctx)
+        if ok0 and not [v for v in k0.violations if "resolve_foreign_key_inner" in v.key]:
+            loop_table["leptos_i18n_parser::parse_locales::parsed_value::ParsedValue::resolve_foreign_key_inner"] = (
+                "chain walk over `inherits`: every iteration returns, breaks, or moves to a locale not visited before (else to the default locale, where a null "
+                "or absent target is an error) - evaluated by C06.R0 on chains, cycles, self references and absent links: every walk ends")
+    except Exception:  # noqa: BLE001
+        pass
     nxt = re.compile(r"::next$|::next_key$|::next_key_seed$|::next_element_seed$|::next_element$|::next_value|::next_entry")
     for cfg in cfgs:
         prog = ctx.mir(cfg)
